@@ -2,6 +2,20 @@
 
 include!("../../generated/generated_cpal.rs");
 
+impl Cpal {
+    fn compute_version(&self) -> u16 {
+        // version 1 adds three optional arrays; any of them present requires a v1 header
+        if self.palette_types_array.is_some()
+            || self.palette_labels_array.is_some()
+            || self.palette_entry_labels_array.is_some()
+        {
+            1
+        } else {
+            0
+        }
+    }
+}
+
 #[cfg(test)]
 mod tests {
 
